@@ -45,10 +45,28 @@ def generate(rng, tier):
         for tail in ("", "00", "0a004040c0c0", "fdffffff00", "ffffffff01" + "ff" * 8):
             g["adversarial"].append("DEC " + G.MAGIC + s + tail)
             g["adversarial"].append("DEC " + G.MAGIC + "02" + s + tail)
+    # well-formed streams that set up gradients with very many (valid) stops, cut at every byte: decoded into a Renderer
+    g["many-stops"] = []
+    for ns in (2, 57, 58, 59, 60, 62, 63):
+        for nb in (0, 10):
+            s = G.MAGIC + "00" + "%02x" % (0x40 + nb)
+            for i in range(64):                      # NREG[nb + i] = i / 64 (incrementing writes, 4-byte reals)
+                b = (C.f32_bits(i / 64.0) & ~3) | 3
+                s += "af%02x%02x%02x%02x" % (b & 255, (b >> 8) & 255, (b >> 16) & 255, b >> 24)
+            s += "%02x" % (0x00 + 1)                 # CSEL = 1: stops in CREG[1..], the gradient itself in CREG[0]
+            for i in range(ns):
+                s += "9f%02x%02x%02xff" % (i, 255 - i, (3 * i) & 255)
+            s += "00" + "98%02x%02x%02x00" % (ns, 1 | (rng.below(4) << 6), nb | (2 << 6))
+            s += "c0" + "8080" + "00" + "9090" + "00" + "7090" + "e1"
+            g["many-stops"].append("DEC " + s)
+            for cut in range(len(s) // 2 - 14, len(s) // 2):
+                g["many-stops"].append("DEC " + s[:2 * cut])
     out = {}
     for k, v in g.items():
         out[k] = v
         out[k + "-viewbox"] = ["DVB " + c.split(" ", 1)[1] for c in v[::4]]
+        if k == "many-stops":
+            out[k + "-into-renderer"] = ["DREN 0 0 16 16 " + c.split(" ", 1)[1] for c in v]
         if k in ("truncations", "corruptions", "random-after-magic"):
             out[k + "-into-renderer"] = ["DREN 0 0 %d %d " % (1 + i % 40, 1 + i % 33) + c.split(" ", 1)[1] for i, c in enumerate(v[2::8])]
             out[k + "-into-encoder"] = ["TR 1 %d " % (i % 2) + c.split(" ", 1)[1] for i, c in enumerate(v[3::8])]
